@@ -39,11 +39,14 @@ func toTwosComplement(res, x *big.Int, targetBitSize uint) *big.Int {
 	return res.SetBytes(bytes)
 }
 
-// toTwosComplement converts `res` to the big.Int representation from the two's complement format of a
-// signed integer.
-// `res` is returned and can be positive or negative.
-func fromTwosComplement(res *big.Int) *big.Int {
-	bytes := res.Bytes()
+// fromTwosComplement converts `res`, the two's complement representation of a signed integer
+// of the given bit size, to the big.Int it represents.
+// `res` must fit in `bitSize` bits. The result can be positive or negative.
+func fromTwosComplement(res *big.Int, bitSize uint) *big.Int {
+	// Use exactly bitSize/8 bytes, so that the sign bit is the most significant bit
+	// of the given size, and not the most significant bit of the minimal encoding of `res`.
+	bytes := make([]byte, bitSize/8)
+	res.FillBytes(bytes)
 	return values.BigEndianBytesToSignedBigInt(bytes)
 }
 
@@ -668,7 +671,7 @@ func (v Int128Value) BitwiseLeftShift(context ValueStaticTypeContext, other Inte
 		res = toTwosComplement(res, v.BigInt, 128)
 		res = res.Lsh(res, uint(o.BigInt.Uint64()))
 		res = truncate(res, 128/bits.UintSize)
-		return fromTwosComplement(res)
+		return fromTwosComplement(res, 128)
 	}
 
 	return NewInt128ValueFromBigInt(context, valueGetter)
